@@ -167,10 +167,48 @@ def first_obj_diff(a, b, path="", verbose=False):
     return res("value", f"{path}: {a!r} vs {b!r}")
 
 
+def check_across_threads(case, rec):
+    """The decoder runs in a worker thread, the conversion back in the calling thread (objects and events are plain
+    values; where they were produced must not matter)."""
+    import threading
+
+    from tpmstream.common.object import events_to_obj, obj_to_events
+
+    box = {}
+
+    def work():
+        box["t"] = TR.run(case.t, case.d, strict=True, cc=case.cc, enc=case.enc)
+
+    th = threading.Thread(target=work)
+    th.start()
+    th.join()
+    t = box.get("t")
+    if t is None or t.outcome[0] != "ok":
+        return
+    rec.case(("threads", case.sig), nontrivial=True)
+    rec.count("cross_thread_round_trips")
+    events = [e.raw for e in t.events]
+    cc = TR.cc_obj(case.cc) if case.cc is not None else None
+    try:
+        obj_ev = events_to_obj(events, command_code=cc)
+        back = list(obj_to_events(obj_ev))
+    except Exception as e:
+        rec.violation("cross-thread", "raises:" + TR.mechanism(e), f"{case.short()}\n{type(e).__name__}: {e}", case.replay(threads=True))
+        return
+    if not (t.obj == obj_ev):
+        rec.violation("cross-thread", "objects-equal:" + first_obj_diff(t.obj, obj_ev), f"{case.short()}\nobject decoded in a worker thread != object rebuilt from its events in the calling thread: {first_obj_diff(t.obj, obj_ev, verbose=True)}", case.replay(threads=True))
+        return
+    d = ev_diff(back, events)
+    if d:
+        rec.violation("cross-thread", "obj_to_events", f"{case.short()}\nevents of the object rebuilt in the calling thread differ from the events decoded in the worker thread at #{d[0]}: {d[1]}", case.replay(threads=True))
+
+
 def run_shard(shard, rec):
     rng = random.Random(f"{shard.get('seed', 0)}:C11:{shard['name']}")
     for base in _strict.base_cases(shard, rng):
         check(base, rec)
+        if base.t in ("Command", "Response") and (base.enc or (base.t == "Command" and b"\x80\x02" == base.d[:2])):
+            check_across_threads(base, rec)
         if base.origin == "gen-empty2b":
             rec.count("empty_structured_tpm2b_cases")
         if base.t == "Response" and base.enc:
@@ -179,11 +217,14 @@ def run_shard(shard, rec):
 
 def finish(m, tier):
     inc = []
-    for k in ("canonical_from_bytes", "canonical_from_object", "empty_structured_tpm2b_cases", "encrypted_responses", "union_events"):
+    for k in ("canonical_from_bytes", "canonical_from_object", "empty_structured_tpm2b_cases", "encrypted_responses", "union_events", "cross_thread_round_trips"):
         if not m["counters"].get(k):
             inc.append(f"no {k}")
     return dict(inconclusive=inc)
 
 
 def replay(r, rec):
-    check(cases.Case.from_replay(r), rec)
+    if r.get("threads"):
+        check_across_threads(cases.Case.from_replay(r), rec)
+    else:
+        check(cases.Case.from_replay(r), rec)
